@@ -49,6 +49,9 @@ CHAR_PREDICATES = {
     "std::char::methods::<impl char>::is_alphanumeric": lambda c: c.isalnum(),
     "std::char::methods::<impl char>::is_ascii_digit": lambda c: c in "0123456789",
     "std::char::methods::<impl char>::is_ascii_lowercase": lambda c: c.isascii() and c.islower(),
+    "std::char::methods::<impl char>::is_whitespace": lambda c: c.isspace() or c in "\x85\u200e\u200f\u2028\u2029" and c not in "\u200e\u200f",
+    "std::char::methods::<impl char>::is_ascii_whitespace": lambda c: c in " \t\n\x0c\r",
+    "std::char::methods::<impl char>::is_ascii_hexdigit": lambda c: c in "0123456789abcdefABCDEF",
 }
 
 # TableGen bang operators: arity (min, max|None) and whether a <type> annotation is required
